@@ -19,7 +19,7 @@ def check(tier: str) -> int:
     chk.assumptions += ["whitespace = the characters str.strip()/isspace() recognise (table spec/concrete.json)",
                         "programs do not inspect captured text (they only print it)",
                         "TLC, Json/IOUtils modules, CPython"]
-    runs = [("markers", 3), ("blank", 3)] if tier == "quick" else [("markers", 5), ("blank", 5)]
+    runs = [("markers", 3), ("capture", 4), ("blank", 4)] if tier == "quick" else [("markers", 5), ("capture", 5), ("blank", 5)]
     for variant, top in runs:
         r = gen.run_focus(chk, "MC_Trim", f"trim-{variant}", max_top=top, invariants=("Total", "WsOnly"),
                           extra_constants={"Variant": f'"{variant}"'}, timeout=6000)
